@@ -333,7 +333,7 @@ def evaluate(ctx, cases, tagsl):
 
 def shrink(c):
     """reduce an array case to a single scalar pair when that still shows a disagreement"""
-    if "history" in c:
+    if "history" in c or c.get("kind") == "cli-tol":
         return c
     a, b = c["a"], c["b"]
     if a["shape"] != b["shape"] or len(a["v"]) <= 1:
@@ -377,15 +377,93 @@ def reused_dynamic_tolerances(ctx, n):
                                    "documented formula (use number %d of the same object)" % k)
 
 
+# ---------------------------------------------------------------- command-line route ("tolerances given as numbers")
+
+CLI_WHAT = ("`fieldcompare file` exit status differs from the documented formula evaluated with the tolerances that the "
+            "documented option semantics select (NAME:V overrides the general V; absent: rel = eps, abs = 0)")
+
+
+def _cli_payload(ct, c, e, out):
+    return dict(c, argv_options=ct.option_argv(c["sc"]), exit=out, fields=ct.describe(e))
+
+
+def cli_route(ctx, n_vtu_pairs, rounds):
+    """the route by which tolerances GIVEN AS NUMBERS reach the predicate for a command-line user: generated CSV / .vtu
+    files with float64 fields, compared by `fieldcompare._cli.main(["file", …])` under every pair of (-rtol layout,
+    -atol layout) of `clitol_p5a.LAYOUTS` — general and per-field values in either order, explicit zeros in every
+    position — with one entry placed on / one ulp inside / one ulp outside the threshold.  The tolerances of every field
+    are decided here from the documented option semantics; arrays + tolerances go to the Lean model of the predicate
+    exactly like the API cases; the exit code must be 0 iff every compared field is model-equal (hyp: theorem
+    C01_model_eq_spec, all float64 arrays and tolerance kinds)."""
+    from fcv import clitol_p5a as ct, cli_scen as cs
+    items = ct.layout_cases(ctx.rng, n_vtu_pairs, rounds)
+    wd = cs.Workdir()
+    try:
+        CH = 250
+        for i in range(0, len(items), CH):
+            chunk = items[i:i + CH]
+            exps = ct.expected(ctx, [c["sc"] for c, _ in chunk])
+            for (c, tags), e in zip(chunk, exps):
+                sc = c["sc"]
+                r = ct.run_files(sc, wd, [("res", "ref", sc["rtol"], sc["atol"])])
+                out = r["outs"][0]
+                key = ("cli", tuple(ct.option_argv(sc)), repr(cs.data_fields(sc["res"])), repr(cs.data_fields(sc["ref"])))
+                if not r["readok"] or e["pairs"] is None:
+                    # the generated file does not read back to the intended data: outside what is modelled
+                    ctx.case(key, nontrivial=False, tags=list(tags) + ["cli-discarded-reader-sidecheck"])
+                    continue
+                dev = c.get("deviation")
+                ctx.case(key, nontrivial=bool(dev and dev["from"] != dev["to"]), tags=list(tags) + ["cli-exit-" + out],
+                         sample={"argv_options": ct.option_argv(sc), "exit": out, "fields": ct.describe(e)})
+                wp = ct.want_exit(e["py"])
+                if e["bad"] is not None:
+                    ctx.inconsistent(c, str(e["bad"]), "bad-op")
+                elif e["model"] is not None and e["hyp"]:
+                    wm, ws = ct.want_exit(e["model"]), ct.want_exit(e["spec"])
+                    if not ct.agrees(out, wm):
+                        ctx.mismatch(_cli_payload(ct, c, e, out), "exit=" + out, "exit " + str(wm),
+                                     what="CLI exit status vs model verdicts of the compared fields")
+                    if e["spec"] != e["model"]:
+                        ctx.inconsistent(c, str(e["model"]), str(e["spec"]))
+                    if e["spec"] != e["py"]:
+                        ctx.inconsistent(c, "lean-spec=" + str(e["spec"]), "python-oracle=" + str(e["py"]))
+                    if not ct.agrees(out, ws):
+                        ctx.violation(_cli_payload(ct, c, e, out), "exit=" + out,
+                                      "exit 0" if ws == "0" else "non-zero exit", cls=None, what=CLI_WHAT)
+                        continue
+                if not ct.agrees(out, wp):
+                    ctx.violation(_cli_payload(ct, c, e, out), "exit=" + out, "exit 0" if wp == "0" else "non-zero exit",
+                                  cls=None, what=CLI_WHAT + " (python oracle)")
+    finally:
+        wd.close()
+
+
+def replay_cli(ctx, c):
+    from fcv import clitol_p5a as ct
+    sc = c["sc"]
+    e = ct.expected(ctx, [sc])[0]
+    out = ct.run_scenario(sc)["outs"][0]
+    want = ct.want_exit(e["spec"]) if (e["spec"] is not None and e["hyp"]) else ct.want_exit(e["py"])
+    print(f"replay: fieldcompare file <res> <ref> {' '.join(ct.option_argv(sc))} -> exit class {out}; "
+          f"demanded: {want}; fields: {ct.describe(e)}")
+    return not ct.agrees(out, want)
+
+
 def run(ctx):
     ctx.rule = ("cases = (tolerances, a, b) for FuzzyEquality on float64 arrays; scalar pairs with b placed on the "
                 "threshold +-0..2 ulp over magnitudes subnormal..1e300, arrays of shapes (n,),(n,k),(n,k,k),(n,1) with one "
                 "deviating entry at first/interior/last/last-component position, scalar / per-component / scaled / default "
                 "tolerances, (n,)~(n,1) mixes and genuine shape mismatches; plus float32/float16 arrays of shapes (n,),(n,k),(n,1) "
-                "with Python-float (weak) and array/scaled (strong) tolerances; non-trivial = operands differ in a value or in "
-                "shape; distinct = distinct (tolerances, a, b)")
+                "with Python-float (weak) and array/scaled (strong) tolerances; plus the command-line route: CSV / .vtu files with "
+                "float64 fields under every pair of -rtol / -atol argument layouts (general / per-field values, either order, "
+                "explicit zeros in every position), one entry on / one ulp inside / one ulp outside the selected threshold, "
+                "exit code vs model verdicts of the fields; non-trivial = operands differ in a value or in "
+                "shape; distinct = distinct (tolerances, a, b) resp. (options, file contents)")
     ctx.assumptions += ["numpy float64 arithmetic is IEEE round-to-nearest-even (model: Fc.rndMag, compared on every case)",
-                        "CPython int/int true division is correctly rounded (python-side oracle)"]
+                        "CPython int/int true division is correctly rounded (python-side oracle)",
+                        "command-line route: the text / VTU readers return the float64 data the files were written from "
+                        "(side-check on every generated file; failing ones are discarded and counted), and the exit code is 0 "
+                        "iff every compared field passes (C04); option semantics as documented by `fieldcompare file --help`"]
     rng = ctx.rng
     n_scalar = ctx.scale(6000, 400000)
     n_array = ctx.scale(1500, 60000)
@@ -403,6 +481,7 @@ def run(ctx):
     for i in range(0, len(cases), CH):
         evaluate(ctx, cases[i:i + CH], tagsl[i:i + CH])
     reused_dynamic_tolerances(ctx, ctx.scale(150, 6000))
+    cli_route(ctx, n_vtu_pairs=ctx.scale(40, 169), rounds=ctx.scale(1, 10))
     ctx.spec_viol = [dict(v, case=shrink(v["case"])) for v in ctx.spec_viol[:50]]
 
 
@@ -415,6 +494,11 @@ def replay_witness(ctx, entry):
 
 def replay(ctx, payload):
     c = payload["case"]
+    if c.get("kind") == "cli-tol":
+        if replay_cli(ctx, c):
+            print(f"VIOLATION property=C01 replay={payload.get('_path', '<replay>')}")
+            return 1
+        return 0
     if "history" in c:
         # one predicate object evaluated on the recorded fields in order; the last verdict is the one in question
         pred = predio.make_pred(c["kind"], c["rel"], c["abs"])
